@@ -188,6 +188,16 @@ def sweeps(quick):
             if a >= 0 and b >= 0:
                 add('EDIV mutez nat', [PUSH(T.NAT, b), PUSH(T.MUTEZ, a), I('EDIV')])
                 add('EDIV mutez mutez', [PUSH(T.MUTEZ, b), PUSH(T.MUTEZ, a), I('EDIV')])
+    # COMPARE on options / pairs / unions whose payloads are falsy Python objects ("" 0x False 0 Unit None)
+    falsy = [(T.option(T.STRING), [None, ('Some', ''), ('Some', 'a')]), (T.option(T.BOOL), [None, ('Some', False), ('Some', True)]),
+             (T.option(T.BYTES), [None, ('Some', b''), ('Some', b'\x00')]), (T.option(T.NAT), [None, ('Some', 0), ('Some', 1)]),
+             (T.option(T.option(T.BOOL)), [None, ('Some', None), ('Some', ('Some', False))]), (T.option(T.UNIT), [None, ('Some', ())]),
+             (T.pair(T.option(T.STRING), T.NAT), [(None, 5), (('Some', ''), 1), (('Some', ''), 5)]),
+             (T.or_(T.STRING, T.BOOL), [('L', ''), ('L', 'a'), ('R', False), ('R', True)])]
+    for t, vals in falsy:
+        for a in vals:
+            for b in vals:
+                add('COMPARE falsy payloads', [PUSH(t, b), PUSH(t, a), I('COMPARE')])
     # CAST / RENAME no-ops
     add('CAST', [PUSH(T.NAT, 1), I('CAST', TY(T.NAT))])
     add('RENAME', [PUSH(T.NAT, 1), I('RENAME', annots=['@x'])])
